@@ -4,7 +4,7 @@
 //! The core idea is that we install a custom panic hook (`init_panic_hook`) that runs when a thread
 //! panics. That hook tries to print information about the failing schedule by calling
 //! `persist_failure`.
-use std::cell::Cell;
+use std::cell::{Cell, RefCell};
 use std::fs::OpenOptions;
 use std::io::{ErrorKind, Write};
 use std::panic;
@@ -15,15 +15,42 @@ use crate::config::{Config, FailurePersistence};
 use crate::runtime::execution::{CurrentSchedule, ExecutionState};
 use crate::scheduler::serialization::serialize_schedule;
 
-// When we last persisted a schedule. Used so that we don't persist the same schedule twice.
 thread_local! {
-    static SCHEDULE_PERSISTED_AT: Cell<usize> = const { Cell::new(0) };
+    // When we last persisted a schedule *of the current execution*. Used so that we don't persist the
+    // same schedule twice. Reset at the start of every execution (`enter_execution`), so that a
+    // failure of an earlier execution on this thread never suppresses a later one's schedule.
+    static SCHEDULE_PERSISTED_AT: Cell<Option<usize>> = const { Cell::new(None) };
+
+    // The configuration of the execution currently running on this thread, if any. The panic hook is
+    // installed once per process, so it must not capture the `Config` of whichever run came first.
+    static ACTIVE_CONFIG: RefCell<Option<Config>> = const { RefCell::new(None) };
+}
+
+/// Marks an execution as running on this thread; see [`enter_execution`].
+pub struct ActiveExecutionGuard {
+    previous: Option<Config>,
+}
+
+/// Record `config` as the configuration of the execution that is starting on this thread and forget
+/// what earlier executions persisted. The returned guard restores the previous state when dropped
+/// (also when the execution unwinds).
+pub fn enter_execution(config: &Config) -> ActiveExecutionGuard {
+    SCHEDULE_PERSISTED_AT.set(None);
+    let previous = ACTIVE_CONFIG.with(|c| c.borrow_mut().replace(config.clone()));
+    ActiveExecutionGuard { previous }
+}
+
+impl Drop for ActiveExecutionGuard {
+    fn drop(&mut self) {
+        let previous = self.previous.take();
+        ACTIVE_CONFIG.with(|c| *c.borrow_mut() = previous);
+    }
 }
 
 /// Persist (to stderr or to file) a message describing how to replay a failing schedule.
 pub fn persist_failure(config: &Config) {
     // Don't serialize the same schedule twice.
-    if SCHEDULE_PERSISTED_AT.get() == CurrentSchedule::len() {
+    if SCHEDULE_PERSISTED_AT.get() == Some(CurrentSchedule::len()) {
         return;
     }
 
@@ -51,7 +78,7 @@ pub fn persist_failure(config: &Config) {
         }
     }
 
-    SCHEDULE_PERSISTED_AT.set(CurrentSchedule::len());
+    SCHEDULE_PERSISTED_AT.set(Some(CurrentSchedule::len()));
 }
 
 /// Persist the given serialized schedule to a file and return the new file's path. The file will be
@@ -88,7 +115,7 @@ fn persist_failure_to_file(serialized_schedule: &str, destination: Option<&PathB
 ///
 /// See the module documentation for more details on how this method fits into the failure reporting
 /// story.
-pub fn init_panic_hook(config: Config) {
+pub fn init_panic_hook() {
     static INIT: Once = Once::new();
     INIT.call_once(|| {
         let original_hook = panic::take_hook();
@@ -96,7 +123,15 @@ pub fn init_panic_hook(config: Config) {
             eprintln!("Task failed, serializing schedule");
             let task_name = ExecutionState::failing_task();
             eprintln!("test panicked in task '{task_name}'");
-            persist_failure(&config);
+            // Persist according to the execution running on *this* thread (if any), not according to
+            // the run that happened to install the hook.
+            let active = ACTIVE_CONFIG
+                .try_with(|c| c.try_borrow().ok().and_then(|c| c.clone()))
+                .ok()
+                .flatten();
+            if let Some(config) = active {
+                persist_failure(&config);
+            }
             original_hook(panic_info);
         }));
     });
